@@ -35,7 +35,7 @@ func generate(w *mon.W) {
 	pipecheck.InstallSplitObserver(w)
 	nInst := w.Pick(3, 6)
 	rng := gen.RNG(w.Seed, "c03")
-	n := w.Pick(8_000, 160_000)
+	n := w.Pick(14_000, 240_000)
 	pre := []string{"where", "project", "extend", "sort", "take", "top", "as", "summarize", "render", "count"}
 	for i := 0; i < n && !w.Stopped(); i++ {
 		var seq []string
@@ -57,26 +57,28 @@ func generate(w *mon.W) {
 		}
 		g := &gen.PipeGen{Rng: rng, DetSort: 80, MaxDepth: 2}
 		p, _ := g.Pipe("T", seq, 2)
-		switch i % 9 {
+		// every other pipeline is one of the directed families, the rest are random
+		j := i / 18
+		switch i % 18 {
 		case 0:
 			p = twinJoins(rng)
-		case 1, 4:
+		case 2, 8:
 			p = summarizeThenNestedJoin(rng)
-		case 2:
+		case 4:
 			p = distinctThenDuplicates(rng)
-		case 3:
-			p = namedThenNarrowed(rng)
-		case 5:
-			p = manyConditions(rng, 1+(i/9)%10)
 		case 6:
-			p = pairedConditions(rng, (i/9)%6)
-		case 7:
-			p = oneSidedConditions(rng, (i/9)%30)
-		case 8:
-			if (i/9)%2 == 0 {
-				p = orientedComparison(rng, (i/18)%24)
+			p = namedThenNarrowed(rng)
+		case 10:
+			p = manyConditions(rng, 1+j%10)
+		case 12:
+			p = pairedConditions(rng, j%6)
+		case 14:
+			p = oneSidedConditions(rng, j%30)
+		case 16:
+			if j%2 == 0 {
+				p = orientedComparison(rng, (j/2)%24)
 			} else {
-				p = joinThenNarrowedCount(rng, (i/18)%8)
+				p = joinThenNarrowedCount(rng, (j/2)%8)
 			}
 		}
 		c := &pipecheck.Case{Pipe: p}
